@@ -31,7 +31,7 @@ ASSUMPTIONS = [
     "height smoothing: precondition = each segment's height-like column weakly monotonic with at most one tie (ties are what the tie-breaking loop is for); median_filter is the exact order-statistic shim; N<=4 samples per segment (window 15 on realistic lengths did not fit the per-query cap)",
     "real arithmetic; spring constant > 0",
 ]
-BUDGET_S = {"quick": 1500, "thorough": 3400}
+BUDGET_S = {"quick": 900, "thorough": 3400}
 QUERY_TIMEOUT_MS = {"quick": 60000, "thorough": 240000}
 
 
@@ -39,8 +39,8 @@ def bounds(tier):
     q = tier == "quick"
     return {"tip position": "N=4", "force offset": "N=10" if q else "N in {10, 12}",
             "tip offset": "deviation_from_baseline N=10, frechet_direct_path N=5",
-            "slope": "N=6 (baseline, all), N=5 (approach); strategies shift and drift",
-            "segment discovery": "N=10 (estimator needs a 10% baseline)",
+            "slope": "N=6, regions baseline/all/approach (turning-point search stubbed as an arbitrary index for approach), strategies shift and drift",
+            "segment discovery": "N=10 (estimator needs a 10% baseline) with the turning-point search as an arbitrary-index stub; find_turning_point itself at N=4 (N=5 exceeded the per-query cap on some paths)",
             "smoothing": "segments 3+3 (thorough 4+3), columns height (measured) and tip position",
             "outside": "median window 15 on realistic lengths; optimiser-based contact-point methods; non-monotonic noisy heights"}
 
@@ -60,11 +60,14 @@ def tasks(tier):
     for region in ("baseline", "all", "approach"):
         for strategy in ("shift", "drift"):
             ts.append({"name": f"slope:{region}:{strategy}", "fn": "t_slope",
-                       "args": {"region": region, "strategy": strategy, "n": 5 if region == "approach" else 6},
+                       "args": {"region": region, "strategy": strategy, "n": 6},
                        "max_paths": 6000, "witnesses": ["done"]})
     ts.append({"name": "slope:invalid-options", "fn": "t_slope_invalid", "args": {}})
     ts.append({"name": "segment-discovery:N10", "fn": "t_split", "args": {"n": 10}, "max_paths": 6000,
                "witnesses": ["split", "cannot-split"]})
+    for n, idp in ((4, 2),) if q else ((4, 2), (4, 3), (4, 1)):
+        ts.append({"name": f"turning-point:N{n}:idp{idp}", "fn": "t_turning", "args": {"n": n, "idp": idp},
+                   "max_paths": 6000, "witnesses": ["done"]})
     ts.append({"name": "smooth:3+3", "fn": "t_smooth", "args": {"na": 3, "nr": 3}, "max_paths": 8000,
                "witnesses": ["done"]})
     if not q:
@@ -81,6 +84,9 @@ def _world():
     return w, w.modules["nanite.preproc"]
 
 
+PREFIX = {"height (measured)": "h", "force": "f", "time": "tm", "tip position": "tp"}
+
+
 def _cols(n, names=("height (measured)", "force", "time", "segment", "tip position"), seg=None):
     cols = {}
     sym = {}
@@ -88,7 +94,7 @@ def _cols(n, names=("height (measured)", "force", "time", "segment", "tip positi
         if nm == "segment":
             cols[nm] = symnp.SymArr(seg or [0] * n, dtype=symnp.uint8)
         else:
-            vals = [real(f"{nm[0]}{i}") for i in range(n)]
+            vals = [real(f"{PREFIX[nm]}{i}") for i in range(n)]
             sym[nm] = vals
             cols[nm] = symnp.SymArr(list(vals))
     return cols, sym
@@ -198,6 +204,19 @@ def t_slope(region, strategy, n):
     idnt = common.make_indentation(w, cols, spring_constant=Fr(1, 10))
     snap = _snapshot(idnt)
     f, t, x = sym["force"], sym["time"], sym["tip position"]
+    tp_calls = []
+    if region == "approach":
+        # the turning-point search is a contract stub here (arbitrary index);
+        # find_turning_point itself is decided by the turning-point tasks
+        kturn = core.integer("idturn")
+        assume(kturn >= 0)
+        assume(kturn <= n - 1)
+
+        def find_turning_point(tip_position, force, contact_point_index):
+            tp_calls.append((tip_position, force, contact_point_index))
+            return kturn
+        pp.find_turning_point = find_turning_point
+        check_assumptions()
     pp.preproc_correct_force_slope(idnt, region=region, strategy=strategy)
     witness("done")
     out = idnt["force"].elems
@@ -221,31 +240,18 @@ def t_slope(region, strategy, n):
         hi = n
         zero_at = idp
     else:
-        hi = None
-        zero_at = None
-    if hi is not None:
-        for i in range(n):
-            if i < hi:
-                prove(f"linear-correction-inside-region[{i}]",
-                      same(corr[i], m * ab[i] - m * ab[zero_at]), info={"idp": idp})
-            else:
-                prove(f"untouched-outside-region[{i}]", same(corr[i], 0))
-        prove("no-jump-at-region-boundary", same(corr[zero_at], 0))
-    else:
-        # approach: region = [0, idturn) with idturn = max(2, turning point)
-        last = max(i for i in range(n) if changed[i]) if any(changed) else None
-        for i in range(n):
-            for j in range(n):
-                if i < j:
-                    # differences of corrections follow the fitted line wherever both are in the region
-                    pass
-        # contiguous prefix and linear shape relative to its last element
-        ks = [k for k in range(2, n + 1)]
-        conds = []
-        for k in ks:
-            conds.append(all_of([same(corr[i], m * ab[i] - m * ab[k - 1]) for i in range(k)]
-                                + [same(corr[i], 0) for i in range(k, n)]))
-        prove("linear-correction-on-a-prefix-zero-at-its-end-and-beyond", any_of(conds))
+        kk = core.concretize(kturn, 0, n - 1, "idturn")
+        hi = max(2, kk)
+        zero_at = hi - 1
+        prove("turning-point-searched-with-contact-index", len(tp_calls) == 1 and tp_calls[0][2] == idp
+              and all(u is v for u, v in zip(tp_calls[0][0].elems, x)))
+    for i in range(n):
+        if i < hi:
+            prove(f"linear-correction-inside-region[{i}]",
+                  same(corr[i], m * ab[i] - m * ab[zero_at]), info={"idp": idp})
+        else:
+            prove(f"untouched-outside-region[{i}]", same(corr[i], 0))
+    prove("no-jump-at-region-boundary", same(corr[zero_at], 0))
     _untouched(idnt, snap, own=["force"])
     return {"region": region, "strategy": strategy, "idp": idp}
 
@@ -267,9 +273,20 @@ def t_slope_invalid():
 
 
 def t_split(n):
+    """Segment discovery with the turning-point search as a contract stub
+    (arbitrary index); the search itself is decided by t_turning."""
     w, pp = _world()
     seg0 = [0] * (n // 2) + [1] * (n - n // 2)
     cols, sym = _cols(n, ("force", "segment", "tip position"), seg=seg0)
+    calls = []
+    k = core.integer("idturn")
+    assume(k >= 0)
+    assume(k <= n - 1)
+
+    def find_turning_point(tip_position, force, contact_point_index):
+        calls.append((tip_position, force, contact_point_index))
+        return k
+    pp.find_turning_point = find_turning_point
     check_assumptions()
     idnt = common.make_indentation(w, cols, spring_constant=Fr(1, 10))
     snap = _snapshot(idnt)
@@ -278,25 +295,77 @@ def t_split(n):
         pp.preproc_correct_split_approach_retract(idnt)
     warned = any(issubclass(x.category, pp.CannotSplitWarning) for x in wl)
     seg = idnt["segment"].elems
+    idp = w.modules["nanite.poc"].poc_deviation_from_baseline(symnp.SymArr(list(sym["force"])))
+    if isinstance(idp, core.SymInt):
+        idp = core.concretize(idp, 0, n, "idp")
     if warned:
         witness("cannot-split")
         prove("segment-unchanged-on-warning", list(seg) == seg0)
+        prove("warning-only-without-contact-estimate", is_nan(idp) or idp == 0, info={"idp": repr(idp)})
     else:
         witness("split")
-        prove("segment-values", all(v in (0, 1) for v in seg))
-        switches = sum(1 for i in range(1, n) if seg[i] != seg[i - 1])
-        prove("single-approach-to-retract-switch", switches <= 1 and (seg[0] == 0 or all(v == 1 for v in seg)),
-              info={"segment": list(seg)})
-        # the switch is at the farthest point: recompute with the real helper
-        idp = w.modules["nanite.poc"].poc_deviation_from_baseline(symnp.SymArr(list(sym["force"])))
-        if isinstance(idp, core.SymInt):
-            idp = core.concretize(idp, 0, n, "idp")
-        idturn = pp.find_turning_point(symnp.SymArr(list(sym["tip position"])), symnp.SymArr(list(sym["force"])), idp)
-        if isinstance(idturn, core.SymInt):
-            idturn = core.concretize(idturn, 0, n, "idturn")
-        prove("switch-at-turning-point", list(seg) == [0] * idturn + [1] * (n - idturn), info={"idturn": idturn})
+        kk = core.concretize(k, 0, n - 1, "idturn")
+        prove("switch-at-turning-point", list(seg) == [0] * kk + [1] * (n - kk), info={"idturn": kk})
+        prove("turning-point-searched-on-the-curve-data", len(calls) == 1
+              and all(u is v for u, v in zip(calls[0][0].elems, sym["tip position"]))
+              and all(u is v for u, v in zip(calls[0][1].elems, sym["force"]))
+              and calls[0][2] == idp, info={"idp": repr(idp)})
     _untouched(idnt, snap, own=["segment"])
     return {"warned": warned}
+
+
+def t_turning(n, idp):
+    """find_turning_point returns the sample farthest from the contact point
+    in the normalised (tip position, force) plane (independent restatement)."""
+    w, pp = _world()
+    x = [real(f"x{i}") for i in range(n)]
+    y = [real(f"y{i}") for i in range(n)]
+    # a curve that actually indents: some tip position below the contact point
+    # and some force above the baseline
+    check_assumptions()
+    try:
+        got = pp.find_turning_point(symnp.SymArr(list(x)), symnp.SymArr(list(y)), idp)
+    except ValueError as e:
+        core.note(repr(e))
+        return {"raised": repr(e)[:80]}
+    if isinstance(got, core.SymInt):
+        got = core.concretize(got, 0, n - 1, "turning point")
+    witness("done")
+    # specification
+    xs = [xi - x[idp] for xi in x]
+    xmin = xs[0]
+    for v in xs[1:]:
+        xmin = sym_ite(v < xmin, v, xmin)
+    if core.decide(xmin != 0):
+        xs = [core.sym_div(v, xmin) for v in xs]
+    xs = [sym_ite(v < 0, 0, v) if not is_nan(v) else v for v in xs]
+    base = 0
+    for v in y[:idp]:
+        base = base + v
+    base = core.sym_div(base, idp)
+    ys = [v - base for v in y]
+    ymax = ys[0]
+    for v in ys[1:]:
+        ymax = sym_ite(v > ymax, v, ymax)
+    ys = [core.sym_div(v, ymax) for v in ys]
+    if any(is_nan(v) or core.is_inf(v) for v in ys + xs):
+        core.note("degenerate normalisation (zero range): outside the well-formed domain")
+        return {"degenerate": True}
+    m = 0
+    for v in ys[:idp]:
+        m = m + v
+    m = core.sym_div(m, idp)
+    var = 0
+    for v in ys[:idp]:
+        var = var + (v - m) * (v - m)
+    sd = core.sym_sqrt(core.sym_div(var, idp))
+    ys = [sym_ite(v < sd, 0, v) for v in ys]
+    d = [xs[i] * xs[i] + ys[i] * ys[i] for i in range(n)]
+    for i in range(n):
+        prove(f"farthest-point[{i}]", d[got] >= d[i], info={"returned": got})
+    for i in range(got):
+        prove(f"first-of-the-farthest[{i}]", d[got] > d[i], info={"returned": got})
+    return {"turning point": got}
 
 
 def t_smooth(na, nr):
@@ -361,7 +430,7 @@ def replay(task, ob, model):
 import nanite, warnings, lmfit
 import nanite.preproc as pp, nanite.poc as poc
 fn = {fn!r}; a = {a!r}; n = {n}
-h = np.array({col("h")!r}); f = np.array({col("f")!r}); t = np.array({col("t")!r}); tm = np.array({col("t")!r})
+h = np.array({col("h")!r}); f = np.array({col("f")!r}); tm = np.array({col("tm")!r})
 lin = {lin!r}
 '''+ '''
 def mk(cols, seg=None, k=0.1):
@@ -387,15 +456,14 @@ elif fn == "t_force_offset":
     if idp and abs(np.mean(i["force"][:idp])) > 1e-9 * max(np.max(np.abs(f)), 1e-300): bad.append("mean pre-contact force not zero")
     if not idp and i["force"][0] != 0: bad.append("first sample not zero")
 elif fn == "t_tip_offset":
-    tp = np.array({col("t")!r})
+    tp = np.array({col("tp")!r})
     i = mk({{"height (measured)": h, "force": f, "tip position": tp}})
     pp.preproc_correct_tip_offset(i, method=a["method"])
     d = tp - i["tip position"]; cp = poc.compute_poc(f.copy(), method=a["method"])
     if not tol(d, d[0] * np.ones(n)): bad.append("tip not changed by a constant")
     if abs(i["tip position"][cp]) > 1e-9 * max(np.max(np.abs(tp)), 1e-300): bad.append("tip position not zero at contact index")
 elif fn == "t_slope":
-    # columns were named by first letter: force f*, time t*, tip position t* (shared prefix): use f and t
-    tp = np.array({col("t")!r})
+    tp = np.array({col("tp")!r})
     class Out: pass
     class LM:
         def guess(self, d, x=None): return None
@@ -418,7 +486,7 @@ elif fn == "t_slope":
         ok = any(tol(corr[:k], m * ab[:k] - m * ab[k - 1]) and np.all(corr[k:] == 0) for k in range(2, n + 1))
     if not ok: bad.append("slope correction shape: %r" % (corr,))
 elif fn == "t_split":
-    tp = np.array({col("t")!r})
+    tp = np.array({col("tp")!r})
     seg0 = [0] * (n // 2) + [1] * (n - n // 2)
     i = mk({{"force": f, "tip position": tp}}, seg=seg0)
     with warnings.catch_warnings(record=True) as wl:
@@ -429,7 +497,7 @@ elif fn == "t_split":
         if sw > 1 or not (seg[0] == 0 or all(v == 1 for v in seg)): bad.append("segment %r" % seg)
     elif seg != seg0: bad.append("segment changed although splitting was refused")
 elif fn == "t_smooth":
-    tp = np.array({col("t")!r}); na = a["na"]
+    tp = np.array({col("tp")!r}); na = a["na"]
     seg = [0] * na + [1] * a["nr"]
     i = mk({{"height (measured)": h, "force": f, "tip position": tp}}, seg=seg)
     with warnings.catch_warnings():
